@@ -7,7 +7,11 @@
 //! `TBP_BUILD`  = ok:<items> | err | layererr   items (comma separated, applied to the BuildResultBuilder in this order, so
 //!                a later launch/store replaces an earlier one): launch elaunch xlaunch, store estore xstore,
 //!                b.<fmt> be.<fmt> bx.<fmt> (build SBOMs), l.<fmt> le.<fmt> lx.<fmt> (launch SBOMs), fmt = cdx|spdx|syft;
-//!                `ok:` alone = empty result.
+//!                `ok:` alone = empty result. Sized payloads (C05, output sizes around the 8 KiB buffer of a `BufWriter`):
+//!                slaunch<N> / sstore<N> = the normal launch / store document padded to exactly N bytes of TOML,
+//!                bs<N>.<fmt> / ls<N>.<fmt> = SBOM data of exactly N bytes (`{"tbp-sbom":k,"pad":"aaa…"}`).
+//! `TBP_STORE_FULL` (C05) = 1: `build` replaces `<layers>/store.toml` (already read by the runtime) by a symbolic link to
+//!                `/dev/full`, so that the runtime's later write of store.toml opens fine and fails with ENOSPC.
 //! Payloads are fixed and recognisable, each in three variants - normal / e = empty-minimal / x = other shape:
 //! plan: provides "tbp-plan" / `BuildPlan::new()` / requires with metadata plus an `or` alternative;
 //! launch: one process "tbpweb" / `Launch::default()` / one label and one slice, no process;
@@ -81,6 +85,19 @@ fn canon_descriptor(d: &libcnb::data::buildpack::ComponentBuildpackDescriptor<Ge
         match &d.metadata { None => "none".to_string(), Some(t) => canon_table(t) })
 }
 
+/// the normal launch document with one padding argument, `n` bytes of TOML in all (as `toml::to_string` writes it)
+fn sized_launch(n: usize) -> Launch {
+    let mk = |pad: usize| LaunchBuilder::new().process(ProcessBuilder::new(process_type!("tbpweb"), ["run"]).arg("a".repeat(pad)).build()).build();
+    let base = toml::to_string(&mk(0)).map(|s| s.len()).unwrap_or(0);
+    mk(n.saturating_sub(base))
+}
+/// the normal store document with one padding key, `n` bytes of TOML in all
+fn sized_store(n: usize) -> Store {
+    let mk = |pad: usize| { let mut t = toml::value::Table::new(); t.insert("tbp".into(), toml::Value::String("new".into())); t.insert("pad".into(), toml::Value::String("a".repeat(pad))); Store { metadata: t } };
+    let base = toml::to_string(&mk(0)).map(|s| s.len()).unwrap_or(0);
+    mk(n.saturating_sub(base))
+}
+
 struct Tbp;
 
 impl Buildpack for Tbp {
@@ -120,6 +137,11 @@ impl Buildpack for Tbp {
                 match &c.store { None => "none".to_string(), Some(s) => canon_table(&s.metadata) }, canon_descriptor(&c.buildpack_descriptor));
             let _ = std::fs::write(d.join("context.dump"), dump);
         }
+        if std::env::var_os("TBP_STORE_FULL").is_some() {
+            let p = c.layers_dir.join("store.toml");
+            let _ = std::fs::remove_file(&p);
+            let _ = std::os::unix::fs::symlink("/dev/full", &p);
+        }
         let beh = std::env::var("TBP_BUILD").unwrap_or_default();
         if beh == "layererr" {
             // a layer whose <name>.toml cannot be read: the framework's own LayerError travels through `?`
@@ -143,6 +165,13 @@ impl Buildpack for Tbp {
                     let mut n = toml::value::Table::new(); n.insert("a".into(), toml::Value::Array(vec![toml::Value::Integer(1), toml::Value::Integer(2)]));
                     let mut t = toml::value::Table::new(); t.insert("tbp".into(), toml::Value::String("x".into())); t.insert("nested".into(), toml::Value::Table(n));
                     r = r.store(Store { metadata: t });
+                }
+                h if h.starts_with("slaunch") && h[7..].parse::<usize>().is_ok() => { r = r.launch(sized_launch(h[7..].parse().unwrap())); }
+                h if h.starts_with("sstore") && h[6..].parse::<usize>().is_ok() => { r = r.store(sized_store(h[6..].parse().unwrap())); }
+                h if !f.is_empty() && (h.starts_with("bs") || h.starts_with("ls")) && h[2..].parse::<usize>().is_ok() => {
+                    let base = format!("{{\"tbp-sbom\":{k},\"pad\":\"\"}}").len();
+                    let data = format!("{{\"tbp-sbom\":{k},\"pad\":\"{}\"}}", "a".repeat(h[2..].parse::<usize>().unwrap().saturating_sub(base))).into_bytes();
+                    r = if h.starts_with('b') { r.build_sbom(Sbom::from_bytes(fmt(f), data)) } else { r.launch_sbom(Sbom::from_bytes(fmt(f), data)) };
                 }
                 "b" | "be" | "bx" if !f.is_empty() => { r = r.build_sbom(Sbom::from_bytes(fmt(f), sbom(&head[1..]))); }
                 "l" | "le" | "lx" if !f.is_empty() => { r = r.launch_sbom(Sbom::from_bytes(fmt(f), sbom(&head[1..]))); }
